@@ -40,8 +40,18 @@ def impl(c):
     from chipfiring.CFCombinatorics import gonality_theoretical_bounds, independence_number, complete_multipartite_gonality
     k = c["kind"]
     if k == "solids":
-        gs, table = solids_data(); return {"graphs": gs, "table": table}
-    if k == "Kn": return {"formula": P.complete_graph_gonality(c["n"]), "G": _canon_graph(P.complete_graph(c["n"]))}
+        gs, table = solids_data()
+        # history: the caller edits a generated solid in place (thickens an edge), then generates the solid again - it must be the published solid again
+        again = {}
+        for name in gs:
+            g1 = getattr(P, name)(); vs = sorted(v.name for v in g1.vertices); nb = sorted(w.name for w in g1.graph[next(v for v in g1.vertices if v.name == vs[0])])
+            g1.add_edge(vs[0], nb[0], 2); again[name] = _canon_graph(getattr(P, name)())
+        return {"graphs": gs, "table": table, "again": again, "table_again": P.platonic_solid_gonality_bounds()}
+    if k == "Kn":
+        G1 = P.complete_graph(c["n"]); first = _canon_graph(G1)
+        if c["n"] >= 2:
+            vs = sorted(v.name for v in G1.vertices); G1.add_edge(vs[0], vs[1], 1)
+        return {"formula": P.complete_graph_gonality(c["n"]), "G": first, "G_again": _canon_graph(P.complete_graph(c["n"]))}
     if k == "multipartite": return {"formula": complete_multipartite_gonality(list(c["parts"]))}
     g = common.build_impl_graph(c["G"], random.Random(c["s"]))
     b = gonality_theoretical_bounds(g); return {"bounds": {x: b[x] for x in b}, "alpha": independence_number(g)}
@@ -75,6 +85,8 @@ def judge(c, r, mo):
             if G["n"] != nv or len(G["edges"]) != ne or any(kk != 1 for _, _, kk in G["edges"]) or any(sum(row) != reg for row in M) or not common.is_connected(G):
                 out.append({"what": "generated %s is not the %d-vertex %d-edge %d-regular simple graph" % (name, nv, ne, reg)})
             if t["vertices"] != nv or t["edges"] != ne: out.append({"what": "table counts for %s are %s/%s" % (name, t["vertices"], t["edges"])})
+        if o.get("again", o["graphs"]) != o["graphs"]: out.append({"what": "a solid generated again after the caller edited the first copy in place differs from the published solid: %s" % [nm for nm in o["graphs"] if o["again"][nm] != o["graphs"][nm]]})
+        if o.get("table_again", o["table"]) != o["table"]: out.append({"what": "the published table changed after a generated solid was edited"})
         for name, line in zip(("tetrahedron", "octahedron", "cube"), mo):
             t = o["table"][name]; gon = int(line[0])
             if t.get("exact") != gon or t["lower_bound"] > gon or t["upper_bound"] < gon: out.append({"what": "table entry for %s (%s) does not match the verified gonality %d of the generated graph" % (name, t, gon)})
@@ -83,6 +95,7 @@ def judge(c, r, mo):
     if k == "Kn":
         if o["G"] != common.mk_graph(c["n"], common.fam_complete(c["n"]), None, 0) and o["G"]["edges"] != [[a, b, 1] for a in range(c["n"]) for b in range(a + 1, c["n"])]: out.append({"what": "complete_graph(%d) is not K_%d" % (c["n"], c["n"])})
         if o["formula"] != gon or gon != c["n"] - 1: out.append({"what": "complete_graph_gonality(%d) = %s, verified gonality of the generated graph %d" % (c["n"], o["formula"], gon)})
+        if o.get("G_again", o["G"]) != o["G"]: out.append({"what": "complete_graph(%d) generated again after the caller edited the first copy is not K_%d any more" % (c["n"], c["n"])})
         return out
     if k == "multipartite":
         if o["formula"] != gon:
@@ -106,8 +119,9 @@ def oracle(c, r):
         for name in ("tetrahedron", "octahedron", "cube"):
             gon = O.gonality(O.mk(o["graphs"][name])) if name != "cube" else 4
             if o["table"][name].get("exact") != gon: why.append("%s table %s, gonality %s" % (name, o["table"][name].get("exact"), gon))
+        if o.get("again", o["graphs"]) != o["graphs"]: why.append("regenerated solid differs after the caller edited the first copy")
         return {"violates": bool(why), "why": why}
-    if k == "Kn": return {"violates": o["formula"] != O.gonality(O.mk(o["G"])), "gonality": O.gonality(O.mk(o["G"]))}
+    if k == "Kn": return {"violates": o["formula"] != O.gonality(O.mk(o["G"])) or o.get("G_again", o["G"]) != o["G"], "gonality": O.gonality(O.mk(o["G"]))}
     if k == "multipartite":
         t = O.gonality(O.mk(_mp_graph(c["parts"]))); return {"violates": o["formula"] != t, "gonality": t, "formula": o["formula"]}
     m = O.mk(c["G"]); n = len(m); gon = O.gonality(m); alpha = max(len(S) for S in [set()] + list(O.subsets(list(range(n)))) if all(m[a][b] == 0 for a in S for b in S if a != b))
